@@ -1113,6 +1113,57 @@ def floordiv(a, b) -> T:
     return App("floordiv", (a, b))
 
 
+def choose(c: T, a: T, b: T) -> T:
+    """`a if c else b`.  `x if x >= y else y` (and its mirror images) is max(x, y) / min(x, y): same value for all ordered
+    operands; piecewise terms with equal arms collapse."""
+    a, b = as_term(a), as_term(b)
+    if a == b:
+        return a
+    if isinstance(c, Cmp) and c.op in ("<", "<="):
+        # c says  p OP 0  with p = lhs - rhs;  test the two orientations a - b and b - a
+        try:
+            d_ab = _poly(add(a, neg(b)))
+            d_ba = _poly(add(b, neg(a)))
+        except Exception:
+            d_ab = d_ba = None
+        if d_ab is not None:
+            if c.poly == d_ab:          # a - b <(=) 0  ->  a   else b        : the smaller one
+                return App("min", tuple(sorted((a, b), key=lambda t: t.key)))
+            if c.poly == d_ba:          # b - a <(=) 0  ->  a   else b        : the larger one
+                return App("max", tuple(sorted((a, b), key=lambda t: t.key)))
+    return PW([(c, a), (negate(c), b)])
+
+
+def _boolish(t: T) -> bool:
+    return isinstance(t, (Cmp, And, Or, Not)) or (isinstance(t, Lit) and isinstance(t.value, bool))
+
+
+def piecewise(pieces) -> T:
+    """PW with the simplifications that make `flag = A; if flag: flag = B` read as A and B: under the guard g a value that is g
+    itself is True and one that is not-g is False; {g -> B, not g -> False} is g and B; {g -> True, not g -> B} is g or B;
+    a two-armed choice goes through choose() (max / min / equal arms)."""
+    ps = []
+    for g, v in pieces:
+        if _boolish(v) and _boolish(g):
+            if v.key == g.key:
+                v = TRUE
+            elif v.key == negate(g).key:
+                v = FALSE
+        ps.append((g, v))
+    if len(ps) == 2 and ps[0][0].key == negate(ps[1][0]).key:
+        (g, a), (_ng, b) = ps
+        if _boolish(a) and b == FALSE:
+            return conj([g, a])
+        if _boolish(b) and a == FALSE:
+            return conj([negate(g), b])
+        if a == TRUE and _boolish(b):
+            return Or([g, b])
+        if b == TRUE and _boolish(a):
+            return Or([negate(g), a])
+        return choose(g, a, b)
+    return PW(ps)
+
+
 def pieces_of(t: T) -> List[Tuple[T, T]]:
     """Flatten top-level piecewise structure: list of (guard, value)."""
     if isinstance(t, PW):
